@@ -247,6 +247,9 @@ def check(case, ctx):
         return
     if 'fuzz' in case:
         case = {'model': fuzzphase.model_of(case), 'text': case['text'], 'src': 'fuzz'}
+    if 'portfolio' in case:
+        from yv import portfolio
+        case = dict(case, model=portfolio.MODELS[case['portfolio']], src='enum')
     m = models.build(case['model'])
     load = m.load
     text = case['text']
@@ -283,8 +286,15 @@ def check(case, ctx):
 
 def phases(tier):
     n = 560 if tier != 'thorough' else 6000
+    from yv.props import c03
+    from yv.runner import EnumPhase
+    k = 3 if tier != 'thorough' else 4
     ph = [HypPhase('models_x_documents', cases(), n),
-          HypPhase('inherited_hooks', inherited_hook_cases(), n // 8)]
+          HypPhase('inherited_hooks', inherited_hook_cases(), n // 8),
+          EnumPhase('small_tagged_documents', c03.enum_tagged(k),
+                    'every mapping document of <=%d nodes over the hierarchy portfolio models x '
+                    'every class tag of the model (also classes outside the expected hierarchy), '
+                    '!Unknown, !!map and no tag on the root: whatever loads must conform' % k)]
     if tier == 'thorough':
         from yv import fuzzphase
         ph.append(fuzzphase.fuzz_phase('C01', 200000))
